@@ -116,6 +116,9 @@ ValDom(fmt, v) ==
        ELSE IF v.pad # "none" THEN "edge" ELSE "in"
 Worst(a, b) == IF "out" \in {a, b} THEN "out" ELSE IF "edge" \in {a, b} THEN "edge" ELSE "in"
 Domain(fmt, kc, v) == Worst(KeyDom(fmt, kc), ValDom(fmt, v))
+\* data the format's domain does not clearly admit: an empty text cell cannot be told from a missing one in CSV, AIF
+\* and Excel (judged "preserved or refused"); JSON carries it
+LayoutDom(fmt, layout) == IF layout = "extra_text_empty" /\ fmt # "json" THEN "edge" ELSE "in"
 \* verdict classes: preserved | refused_pg (a pyGAPS error) | refused_other (any other exception) | changed
 Allowed(dom) == IF dom = "in" THEN {"preserved"} ELSE {"preserved", "refused_pg"}
 
@@ -347,7 +350,7 @@ IdObliged(b, a, exact, focus) == exact \/ ContentEqual(b, a, focus)
 Judge(q) ==
   LET exact == q.fmt = "json"
       hasFocus == q.kc # "none"
-      dom == IF hasFocus THEN Domain(q.fmt, q.kc, q.feat) ELSE "in"
+      dom == Worst(IF hasFocus THEN Domain(q.fmt, q.kc, q.feat) ELSE "in", LayoutDom(q.fmt, q.layout))
       allowed == Allowed(dom)
       impl == IF hasFocus THEN ImplLabel(q.fmt, q.kc, q.feat, Ctx(q.target, q.sep)) ELSE <<"same", "">>
       \* what the model predicts for the same value under a plain key / for a plain text under the same key:
@@ -381,7 +384,11 @@ LBasisSeq == <<"molar", "mass", "volume_gas", "volume_liquid", "fraction", "perc
 MBasisSeq == <<"mass", "volume", "molar">>
 TClassSeq == <<"K_frac", "K_integral", "C_zero", "C_neg", "C_pos">>
 PointLayouts == <<"one_point", "ads_only", "des_only", "both", "interleaved", "branch_column", "extra_float",
-                  "extra_text", "extra_int", "dup_pressure", "int_typed", "many_points", "ads_unsorted">>
+                  "extra_text", "extra_int", "dup_pressure", "int_typed", "many_points", "ads_unsorted",
+                  \* falsy cells: a point at pressure exactly 0.0 (first of the adsorption branch / in the middle of a
+                  \* desorption scan / last point), loading exactly 0.0, extra numeric columns holding 0.0 and 0,
+                  \* an extra text column holding the empty text
+                  "zero_start", "zero_mid", "zero_end", "zero_loading", "extra_zero", "extra_text_empty">>
 ModelLayouts == <<"constructed", "as_fitted", "fitted", "fitted_int">>
 ModelSeq == <<"Henry", "Langmuir", "DSLangmuir", "TSLangmuir", "BET", "GAB", "Freundlich", "DA", "DR", "Quadratic",
               "TemkinApprox", "Virial", "Toth", "JensenSeaton", "FHVST", "WVST">>
@@ -452,6 +459,12 @@ ProductModels(fmt, seed) ==
   [i \in 1..(Len(ModelSeq) * Len(ModelLayouts)) |->
      LET j == i - 1 IN
      Varied(fmt, i, seed, (1 :> 2) @@ (9 :> (j % Len(ModelSeq))) @@ (6 :> (j \div Len(ModelSeq))))]
+\* every model x every temperature class (some models take the temperature as a parameter: DR, DA)
+ProductModelTemp(fmt, seed) ==      \* layouts "constructed" (0) and "fitted" (2): the two ways a model meets the temperature
+  [i \in 1..(Len(ModelSeq) * Len(TClassSeq) * 2) |->
+     LET j == i - 1 IN
+     Varied(fmt, i, seed, (1 :> 2) @@ (9 :> (j % Len(ModelSeq))) @@ (5 :> ((j \div Len(ModelSeq)) % Len(TClassSeq)))
+                          @@ (6 :> 2 * (j \div (Len(ModelSeq) * Len(TClassSeq)))))]
 \* material class x adsorbate class x class
 ProductMat(fmt, seed) ==
   [i \in 1..(3 * 6 * 3) |->
@@ -468,7 +481,8 @@ ProductCLVK(fmt, seed) ==
      Varied(fmt, i, seed, (1 :> c[1]) @@ (6 :> c[2]) @@ (7 :> ((j \div nk) % nv)) @@ (8 :> KSel[(j % nk) + 1]))]
 
 Rows(fmt, tier, seed) ==
-  LET core == ProductCLV(fmt, seed) \o ProductKV(fmt, seed) \o ProductModels(fmt, seed) \o Pairwise(fmt, seed) IN
+  LET core == ProductCLV(fmt, seed) \o ProductKV(fmt, seed) \o ProductModels(fmt, seed) \o ProductModelTemp(fmt, seed)
+              \o Pairwise(fmt, seed) IN
   IF tier = "quick" THEN core
   ELSE core \o ProductUnits(fmt, seed) \o ProductMat(fmt, seed) \o ProductCLVK(fmt, seed + 3) \o ProductKV(fmt, seed + 7)
             \o Pairwise(fmt, seed + 1) \o Pairwise(fmt, seed + 2) \o Pairwise(fmt, seed + 3) \o Pairwise(fmt, seed + 4)
